@@ -565,6 +565,12 @@ def check_mnewton_guard(run, ix):
             isinstance(x.right, ast.Name)]
     if not divs:
         raise AnalysisError('MNewton.__iter__: division by the derivative not found')
+    for x in _walk_own(f.node):
+        if isinstance(x, ast.BinOp) and isinstance(x.op, ast.Div) and isinstance(x.right, ast.BinOp) and \
+                isinstance(x.right.op, (ast.Sub, ast.Add)):
+            run.fail(F('R-R5', OPT, f.qualname, x, 'division by the difference `%s`, which cannot be tested for zero '
+                       'before it is formed: in the rounding noise next to a multiple root f\' - f f\'\'/f\' vanishes '
+                       'while f\' does not (ZeroDivisionError one step after (x-1)^5 was solved to 3e-13)' % norm(x.right)))
     for d in divs:
         nm = d.right.id
         st = d
@@ -576,6 +582,19 @@ def check_mnewton_guard(run, ix):
                       for g in body[:body.index(st)])
         if guarded:
             run.ok('R-R5', 'division by %s is preceded by a zero test that leaves the iteration' % nm)
+            # leaving before anything was yielded makes findroot raise "Could not find root using the given solver"
+            # although the current point is as good as the noise allows: the guard must hand it out first
+            for g in body[:body.index(st)]:
+                if isinstance(g, ast.If) and norm(g.test) in ('%s == 0' % nm, 'not %s' % nm) and \
+                        isinstance(g.body[-1], ast.Break):
+                    if any(isinstance(y, ast.Yield) for b_ in g.body for y in ast.walk(b_)):
+                        run.ok('R-R5', 'the %s == 0 exit yields the current point before leaving' % nm)
+                    else:
+                        run.fail(F('R-R5', OPT, f.qualname, g.test, 'the iteration is left on `%s` without yielding the '
+                                   'current point: when this happens on the first step (a start in the rounding noise of '
+                                   'a multiple root, where the derivative is exactly 0) findroot raises "Could not find '
+                                   'root using the given solver" instead of returning the start, which is within the '
+                                   'attainable accuracy' % norm(g.test)))
         else:
             run.fail(F('R-R5', OPT, f.qualname, st, 'division by %s without a zero test: at a multiple root of an '
                        'expanded polynomial the derivative is exactly 0 while f is non-zero rounding noise '
@@ -607,6 +626,22 @@ def check_polyroots_order(run, ix):
     for st in _walk_own(f.node):
         if isinstance(st, ast.Assign) and isinstance(st.value, ast.Call) and norm(st.value.func) in rankers:
             ranked[norm(st.targets[0])] = norm(st.value.args[0]) if st.value.args else ''
+    # a leading "is not exactly real" key is exact by design: cleanup replaces imaginary parts below the tolerance by
+    # an exact zero, and the documented order is "real roots first"
+    def exact_real_flag(c):
+        return isinstance(c, ast.Compare) and len(c.ops) == 1 and isinstance(c.ops[0], (ast.NotEq, ast.Eq)) and \
+            '_im' in norm(c.left) and norm(c.comparators[0]) == '0'
+    flags = [c for c in comps[:1] if exact_real_flag(c)]
+    if flags:
+        if isinstance(flags[0].ops[0], ast.NotEq):
+            run.ok('R-P3', 'roots whose imaginary part is exactly zero are listed first')
+        else:
+            run.fail(F('R-P3', POLY, 'polyroots', x, 'the leading key `%s` lists the exactly real roots LAST' % norm(flags[0])))
+        comps = comps[1:]
+    else:
+        run.fail(F('R-P3', POLY, 'polyroots', x, 'the ordering has no leading key that separates the exactly real roots: a '
+                   'conjugate pair whose tiny imaginary part was not removed shares the rank of the real roots and is '
+                   'listed among them (polyroots([1, -1, 2**-102, -2**-102]) returned [4.45e-16j, -4.55e-16j, 1.0])'))
     lead = comps[:2]
     bad = [c for c in lead if not (isinstance(c, ast.Subscript) and norm(c.value) in ranked)]
     if bad:
@@ -697,8 +732,8 @@ def run(run, ix, tier):
         raise AnalysisError('only %d bracketing solvers recognised (Bisection, Illinois, Ridder expected)' % n)
     check_polyroots(run, ix)
     run.rule('R-R4', floor=8, desc='keyword callbacks read under their own presence test')
-    run.rule('R-R5', floor=1, desc='mnewton: division by the derivative guarded')
-    run.rule('R-P3', floor=1, desc='polyroots ordering by tolerance ranks')
+    run.rule('R-R5', floor=4, desc='mnewton: divisions guarded, and the guards yield the current point')
+    run.rule('R-P3', floor=2, desc='polyroots ordering: exactly real roots first, then tolerance ranks')
     run.rule('R-M1', floor=1, desc='multiplicity: exhausted loop')
     check_keyword_lookups(run, ix)
     check_mnewton_guard(run, ix)
